@@ -25,7 +25,9 @@ RULE = (
     "outputs) or a generated fluent program (from_source over 1-2 dims, map, generator map with yields, reduce); payloads: any "
     "picklable value for dict, JSON-faithful values for json, module-level callables for the Cascade file; on the dict and json routes "
     "the graph may have a history: serialised once before, and then renamed in place (by a prefix, or by a rotation of its own names) "
-    "before the round trip under test; additionally generated "
+    "before the round trip under test; or saved / loaded as a Cascade, extended with += by another graph, and saved again (the second "
+    "file must describe the live graph); node and input names include the keys of a serialised record and the parameter names of the "
+    "library's helpers, payloads may be record-shaped; additionally generated "
     "unequal pairs (one payload / edge endpoint / output list / extra node changed) on which Graph.__eq__ must answer False; "
     "non-trivial = >=1 terminal node that declares outputs and >=1 edge from a non-default output; distinct = fingerprint of the case"
 )
